@@ -450,7 +450,7 @@ def _meta(what):
             'functions': _FUNCS,
             'bounds': 'quick: 4 timing combinations x {2 threads with 3 callers under every single pre-emption; 3 threads with 4 callers without '
                       'pre-emption under all 6 priority orders}, 3 life-cycles, failure subsets of the first 2-3 invocations; thorough: 12 timing '
-                      'combinations, 3 threads with one pre-emption, custom retaining mapping',
+                      'combinations, 3 threads with one pre-emption, custom retaining mapping; also in quick: take-over and double take-over windows with 3 threads and one pre-emption, a computation longer than the 60 s window, two callers on the computing loop, a supplied mapping that loses entries between two wrapper operations (C06)',
             'outside': '4 threads; more than one pre-emption in quick, more than 2 anywhere; bytecode-level races; restarting a loop that stopped with a call pending',
             'assumptions': _ASSUME}
 
